@@ -101,6 +101,10 @@ def c15_witnesses(extract):
             for n in re.findall(r"/- (.*?) -/", m.group(1)):
                 if n not in exp and n != "memory":
                     out.append("the tool accepts an import named `%s` from the API namespace; no table of the ABI and no provider export has it" % n)
+            md = re.search(r"def toolAcceptsDupBadSig[^\n]*:= \[(.*?)\]\n", txt, re.S)
+            if md:
+                for n in re.findall(r"/- (.*?) -/", md.group(1)):
+                    out.append("the tool accepts a module that imports `%s` twice, once with the public signature and once with another one" % n)
             if re.search(r"/-  -/ \[\]", m.group(1)):
                 out.append("the tool accepts an import with the empty name from the API namespace")
     except Exception:
